@@ -14,6 +14,7 @@ partial def parse : List String → Option (Stmt × List String)
   | "reset" :: m :: r => do some (.reset (← m.toNat?), r)
   | "renew" :: m :: r => do some (.renew (← m.toNat?), r)
   | "newarr" :: m :: r => do some (.newarr (← m.toNat?), r)
+  | "scalar" :: m :: r => do some (.scalar (← m.toNat?), r)
   | "emit" :: x :: r => do some (.emit (← x.toNat?), r)
   | "brk" :: r => some (.brk, r)
   | "cont" :: r => some (.cont, r)
@@ -39,6 +40,13 @@ def showVal : Val → String
   | .nil => ""
   | .map l => String.join (l.map fun p => s!"({p.1}={p.2})")
   | .arr l => String.join (l.map fun p => s!"({p.1}={p.2})")
+  | .scalar => ""
+
+/-- the END block of the generated program: `for (Z in Mi) printf ...; printf "|"` for i = 0,1,2; a variable that
+    holds a scalar aborts it (HAWK_EINROP), shown as `!ERR` -/
+def dumpVars : List Val → String
+  | [] => ""
+  | v :: r => if v.isScalar then "!ERR" else showVal v ++ "|" ++ dumpVars r
 
 def runProg (toks : List String) : String :=
   match parse toks with
@@ -46,7 +54,8 @@ def runProg (toks : List String) : String :=
     let r := exec st ⟨U.init, []⟩
     let u := r.1.user
     let out := String.join (u.out.reverse.map fun k => s!"<{k}>")
-    s!"{out}|{showVal (u.var 0)}|{showVal (u.var 1)}|{showVal (u.var 2)}|"
+    -- a run-time error in BEGIN aborts the program: END is not run
+    if r.2 = .err then s!"{out}!ERR" else s!"{out}|{dumpVars [u.var 0, u.var 1, u.var 2]}"
   | _ => "bad-prog"
 
 end Hawk.Drv.ForIn
